@@ -618,9 +618,9 @@ class Run:
                                     "%s: no member of ppt/media holds the bytes of %s (members %r)"
                                     % (what, desc, sorted(media))))
             elif len(names) > 1:
-                ctx = "across-reopen" if self.epoch > self.first_epoch[b] else "same-session"
-                self.fail(Violation("C15:stored-once:same-bytes-stored-twice:%s" % ctx,
-                                    "%s: %s is stored %d times: %r" % (what, desc, len(names), names)))
+                self.fail(Violation("C15:stored-once:same-bytes-stored-twice",
+                                    "%s: %s is stored %d times: %r (added in session %d, now in session %d)"
+                                    % (what, desc, len(names), names, self.first_epoch[b], self.epoch)))
         for b in self.infos:
             if b in self.start_media.values():
                 names = by_bytes.get(b, [])
